@@ -25,12 +25,32 @@ def quiet():
         yield
 
 
+def arch_window():
+    """a closed arc-length curve whose pieces are NOT congruent: three straight sides (lengths 4/pi, 2, 2) and a semicircle of
+    arc length 2 -- equal element sizes occur on the arc and on the straight sides (a custom curve of the supported kind:
+    PiecewiseParametrization with arc-length pieces)"""
+    import numpy as np
+    from src import parametrization as P
+    r = 2 / np.pi
+    w, hgt = 2 * r, 2.0
+    l0, _ = P.line(np.array([0.0, 0.0]), np.array([w, 0.0]), 0.0)
+    l1, _ = P.line(np.array([w, 0.0]), np.array([w, hgt]), w)
+    s2 = w + hgt
+
+    def arc(x_hat):
+        th = (np.asarray(x_hat) - s2) / r
+        return np.vstack([w / 2 + r * np.cos(th), hgt + r * np.sin(th)])
+    s3 = s2 + np.pi * r
+    l3, _ = P.line(np.array([0.0, hgt]), np.array([0.0, 0.0]), s3)
+    return P.PiecewiseParametrization([0, w, s2, s3, s3 + hgt], [l0, l1, arc, l3])
+
+
 def build_mesh(curve, history_seed, steps, time_grid=None, pre=None):
     from src import parametrization as P
     from src.mesh import MeshParametrized
     rng = random.Random(history_seed)
     with quiet():
-        g = getattr(P, curve)()
+        g = arch_window() if curve == "ArchWindow" else getattr(P, curve)()
         mesh = MeshParametrized(g, initial_time_mesh=time_grid or [0, 1])
         if curve == "LShape":
             for e in list(mesh.leaf_elements):
@@ -86,7 +106,8 @@ def hier_definition(SL, elems, Phi, glin):
 
 
 def c20_cases(tier):
-    cases = [("UnitSquare", 1, 3, None), ("LShape", 2, 2, None), ("Circle", 3, 3, None), ("UnitSquare", 4, 2, [0, 0.25, 1])]
+    cases = [("UnitSquare", 1, 3, None), ("LShape", 2, 2, None), ("Circle", 3, 3, None), ("UnitSquare", 4, 2, [0, 0.25, 1]),
+             ("ArchWindow", 5, 2, [0, 0.5, 1])]
     if tier == "thorough":
         cases += [("PiSquare", 5, 6, None), ("LShape", 6, 6, [0, 0.5, 1]), ("Circle", 7, 8, None)]
     return cases
@@ -304,9 +325,12 @@ def sobolev_space_reference(leaves, e, L, rho, nt=8):
 
 
 def c09_cases(tier):
-    cases = [("UnitSquare", 11, 3), ("Circle", 12, 2), ("LShape", 13, 1)]
+    # steps < 0: |steps| successive space bisections of the leaf containing x_hat = 0.3 * L in the first time slab (deep local
+    # refinement: patches of length down to L * 2^-9 at quadrature order 17 -- the indicators are scale-free quantities and must
+    # not contain absolute thresholds)
+    cases = [("UnitSquare", 11, 3), ("Circle", 12, 2), ("LShape", 13, 1), ("UnitSquare", 17, -8)]
     if tier == "thorough":
-        cases += [("PiSquare", 14, 4), ("Circle", 15, 5), ("UnitSquare", 16, 6)]
+        cases += [("PiSquare", 14, 4), ("Circle", 15, 5), ("UnitSquare", 16, 6), ("Circle", 18, -9)]
     return cases
 
 
@@ -325,9 +349,16 @@ def run_c09(chk, tier, seed):
     def residual(t, x_hat, gamma):
         return rho(np.asarray(t), gamma(np.asarray(x_hat)))
     for (curve, hs, steps) in c09_cases(tier):
-        mesh = build_mesh(curve, hs + 1000 * seed, steps, pre=["uniform_refine_space"] if curve == "Circle" else None)
-        elems = list(mesh.leaf_elements)
+        mesh = build_mesh(curve, hs + 1000 * seed, max(steps, 0), pre=["uniform_refine_space"] if curve == "Circle" else None)
         L = mesh.gamma_space.gamma_length
+        if steps < 0:
+            with quiet():
+                for _ in range(-steps):
+                    e0 = [e for e in mesh.leaf_elements if e.time_interval[0] == 0
+                          and e.space_interval[0] <= 0.3 * L < e.space_interval[1]][0]
+                    mesh.refine_space(e0)
+        elems = list(mesh.leaf_elements)
+        curve_name, curve = curve, (curve if steps >= 0 else "{}-deep{}".format(curve, -steps))     # label of this case in the clause names
         with quiet():
             ee = ErrorEstimator(mesh, N_poly=(11, 11, 17, 17))
             sob = ee.estimate_sobolev(elems, residual, use_mp=False)
@@ -384,6 +415,8 @@ def run_c09(chk, tier, seed):
             eemod.mp.cpu_count = real
         worst = (0.0, None)
         pick = elems if len(elems) <= 14 or tier == "thorough" else elems[:7] + elems[-7:]
+        if steps < 0:
+            pick = sorted(elems, key=lambda e: e.h_x)[:6] + pick[:4]
         for e in pick:
             want = sobolev_space_reference(elems, e, L, rho)
             got = sob[elems.index(e), 1]
